@@ -96,6 +96,8 @@ def worker_main(argv):
                     xh.run_concrete(check['fn'], r['part'], s['tape'])
                 finally:
                     sys.setprofile(None)
+    for r in results:
+        funcs.update(r.pop('functions', []))
     from .tape import tape_to_json
     for r in results:
         for key in ('samples', 'violations', 'known_hits'):
